@@ -264,6 +264,11 @@ type Options struct {
 	FriendlyName string // "" = attribute absent
 	LocalKeyID   []byte // nil = attribute absent
 
+	// UseAttrLists replaces FriendlyName/LocalKeyID by explicit attribute lists per bag
+	// (nil list = no bagAttributes field at all).
+	UseAttrLists        bool
+	CertAttrs, KeyAttrs []Attr
+
 	KeyFirst       bool // key ContentInfo before the certificate ContentInfo
 	CertInData     bool // certificate SafeContents unencrypted in a Data ContentInfo
 	LocalKeyIDLead bool // localKeyID attribute before friendlyName (default: friendlyName first)
@@ -282,6 +287,52 @@ func (o *Options) pw() []byte {
 		return o.RawPassword
 	}
 	return BMPPassword(o.Password)
+}
+
+// Attr is one PKCS12Attribute: an object identifier and the raw DER elements of its
+// SET OF values (written as given, so that odd shapes can be expressed).
+type Attr struct {
+	OID    []int
+	Values [][]byte
+}
+
+// Well-known attribute identifiers: PKCS #9 friendlyName and localKeyId (RFC 2985), and
+// Microsoft's CSP name (what `openssl pkcs12 -CSP` writes).
+var (
+	OIDFriendlyName = oidFriendlyName
+	OIDLocalKeyID   = oidLocalKeyID
+	OIDMSCSPName    = []int{1, 3, 6, 1, 4, 1, 311, 17, 1}
+)
+
+// BMPValue is a BMPString element holding the UTF-16BE octets given.
+func BMPValue(utf16be []byte) []byte { return derref.Element(0x1E, utf16be) }
+
+// OctetsValue is an OCTET STRING element.
+func OctetsValue(b []byte) []byte { return octets(b) }
+
+func attrSet(list []Attr) []byte {
+	if list == nil {
+		return nil
+	}
+	var body []byte
+	for _, a := range list {
+		body = append(body, seq(oid(a.OID), set(a.Values...))...)
+	}
+	return derref.Element(0x31, body)
+}
+
+func (o *Options) certAttrs() []byte {
+	if o.UseAttrLists {
+		return attrSet(o.CertAttrs)
+	}
+	return o.attrs()
+}
+
+func (o *Options) keyAttrs() []byte {
+	if o.UseAttrLists {
+		return attrSet(o.KeyAttrs)
+	}
+	return o.attrs()
 }
 
 func (o *Options) attrs() []byte {
@@ -310,7 +361,7 @@ func (o *Options) CertSafeContents() []byte {
 	bag := func(cert []byte, attrs []byte) []byte {
 		return seq(oid(oidCertBag), explicit0(seq(oid(oidX509Cert), explicit0(octets(cert)))), attrs)
 	}
-	out := bag(o.CertDER, o.attrs())
+	out := bag(o.CertDER, o.certAttrs())
 	for _, c := range o.MoreCert {
 		out = append(out, bag(c, nil)...)
 	}
@@ -357,7 +408,7 @@ func Build(o Options) []byte {
 	// key ContentInfo: Data holding SafeContents with one pkcs8ShroudedKeyBag
 	keyCT := EncryptRaw(o.KeyPBE, pw, o.KeySalt, o.Iter, pad(o.KeyPad, o.KeyPKCS8))
 	epki := seq(pbeAlg(o.KeyPBE, o.KeySalt, o.Iter), octets(keyCT))
-	keySC := seq(seq(oid(oidKeyBag), explicit0(epki), o.attrs()))
+	keySC := seq(seq(oid(oidKeyBag), explicit0(epki), o.keyAttrs()))
 	keyCI := seq(oid(oidData), explicit0(octets(keySC)))
 
 	var authSafe []byte
@@ -400,6 +451,93 @@ type Bag struct {
 	LocalKeyID   []byte
 	PBE          PBE // 0 when the bag travelled unencrypted
 	Iter         int
+	Attrs        []RawAttr // every attribute in file order, uninterpreted
+}
+
+// RawAttr is an attribute as found: dotted OID and the elements of its value set.
+type RawAttr struct {
+	OID    string
+	Values []derref.TLV
+}
+
+// DecodeUTF16BE turns big-endian UTF-16 code units into a string; a surrogate pair becomes
+// one character, an unpaired surrogate U+FFFD. ok is false for an odd number of octets.
+func DecodeUTF16BE(b []byte) (s string, ok bool) {
+	if len(b)%2 != 0 {
+		return "", false
+	}
+	var out []rune
+	for i := 0; i < len(b); i += 2 {
+		u := rune(b[i])<<8 | rune(b[i+1])
+		switch {
+		case u >= 0xD800 && u < 0xDC00 && i+3 < len(b):
+			lo := rune(b[i+2])<<8 | rune(b[i+3])
+			if lo >= 0xDC00 && lo < 0xE000 {
+				out = append(out, 0x10000+(u-0xD800)<<10+(lo-0xDC00))
+				i += 2
+				continue
+			}
+			out = append(out, 0xFFFD)
+		case u >= 0xD800 && u < 0xE000:
+			out = append(out, 0xFFFD)
+		default:
+			out = append(out, u)
+		}
+	}
+	return string(out), true
+}
+
+// Headers derives the attribute view of a bag the way OpenSSL's `pkcs12 -info` labels it and
+// golang.org/x/crypto/pkcs12 documents it for ToPEM ("friendlyName", "localKeyId" as lower-case
+// hex, "Microsoft CSP Name"; unknown attributes are discarded; a later attribute of the same kind
+// replaces an earlier one). wellFormed is false when a known attribute does not hold exactly
+// one value of its type (BMPString with an even number of octets, OCTET STRING).
+// With stripNUL, one trailing U+0000 of a string value is taken as a terminator.
+func (b Bag) Headers(stripNUL bool) (h map[string]string, wellFormed bool) {
+	h = map[string]string{}
+	wellFormed = true
+	for _, a := range b.Attrs {
+		var name string
+		isString := true
+		switch a.OID {
+		case oidString(oidFriendlyName):
+			name = "friendlyName"
+		case oidString(OIDMSCSPName):
+			name = "Microsoft CSP Name"
+		case oidString(oidLocalKeyID):
+			name, isString = "localKeyId", false
+		default:
+			continue
+		}
+		if len(a.Values) != 1 {
+			wellFormed = false
+			continue
+		}
+		v := a.Values[0]
+		if isString {
+			s, ok := DecodeUTF16BE(v.Content)
+			if v.Tag != 0x1E || !ok {
+				wellFormed = false
+				continue
+			}
+			if stripNUL && len(s) > 0 && s[len(s)-1] == 0 {
+				s = s[:len(s)-1]
+			}
+			h[name] = s
+		} else {
+			if v.Tag != 0x04 {
+				wellFormed = false
+				continue
+			}
+			const hexdigits = "0123456789abcdef"
+			var x []byte
+			for _, c := range v.Content {
+				x = append(x, hexdigits[c>>4], hexdigits[c&15])
+			}
+			h[name] = string(x)
+		}
+	}
+	return h, wellFormed
 }
 
 // File is a decoded PFX.
@@ -653,21 +791,29 @@ func Parse(pfx []byte, password []byte) (*File, error) {
 						return nil, ErrSyntax
 					}
 					id := a.oid()
-					vals := &reader{b: a.next(0x31)}
+					valSet := a.next(0x31)
 					a.end()
 					if a.err != nil {
 						return nil, ErrSyntax
 					}
-					switch id {
-					case oidString(oidFriendlyName):
-						b.FriendlyName, b.HasName = string(vals.next(0x1E)), true
-						vals.end()
-					case oidString(oidLocalKeyID):
-						b.LocalKeyID = vals.next(0x04)
-						vals.end()
+					ra := RawAttr{OID: id}
+					for rest := valSet; len(rest) > 0; {
+						t, why := derref.Parse(rest)
+						if why != "" {
+							return nil, ErrSyntax
+						}
+						ra.Values = append(ra.Values, t)
+						rest = rest[t.Total:]
 					}
-					if vals.err != nil {
-						return nil, ErrSyntax
+					b.Attrs = append(b.Attrs, ra)
+					// convenience fields for the plain single-valued cases
+					if len(ra.Values) == 1 {
+						switch {
+						case id == oidString(oidFriendlyName) && ra.Values[0].Tag == 0x1E:
+							b.FriendlyName, b.HasName = string(ra.Values[0].Content), true
+						case id == oidString(oidLocalKeyID) && ra.Values[0].Tag == 0x04:
+							b.LocalKeyID = ra.Values[0].Content
+						}
 					}
 				}
 			}
